@@ -8,9 +8,10 @@ only = sys.argv[2:]  # optional seed id prefixes
 rows = []
 for d in sorted(glob.glob('/verif/seeded/S*')):
     sid = os.path.basename(d)
-    if only and not any(sid.startswith(o) for o in only):
-        continue
     meta = json.load(open(d + '/meta.json'))
+    if only and not any(sid.startswith(o) for o in only):
+        rows.append((sid, meta, meta.get('detected_by', [])))  # keep the recorded result
+        continue
     props = [meta['breaks_property']] + meta.get('also_breaks', [])
     extra = meta.get('also_try', [])
     det = []
